@@ -497,11 +497,17 @@ pub fn run(ctx: &Ctx) -> Result<Run, String> {
         let alphabet = [IOp::TraitMake, IOp::TraitGet { who: 0 }, IOp::TraitGet { who: 2 }, IOp::Cancelled(2), IOp::Cancelled(3), IOp::Make { rk: true, prf: false }, IOp::Get { who: 0, prf: false, silent: false }, IOp::Info];
         let st = inst::sweep(&alphabet, ctx.tier.pick(3, 4), &[0, 1], ctx.threads, "instance");
         stats.count("instance_differential_histories", st.evaluations);
+        // repetition: the same (granted, denied, dropped) ceremony 8, 9, 17 and 33 times in a row on
+        // one authenticator, then each operation as a probe
+        let ralpha = [IOp::TraitMake, IOp::TraitGet { who: 0 }, IOp::Denied(2), IOp::Denied(3), IOp::Denied(1), IOp::Cancelled(3), IOp::Get { who: 0, prf: false, silent: false }, IOp::TraitGet { who: 3 }];
+        let rst = inst::repeat_sweep(&ralpha, &[8, 9, 17, 33], &[0, 1], ctx.threads, "instance");
+        stats.count("instance_repetition_histories", rst.evaluations);
+        stats.merge(rst);
         stats.merge(st);
     }
     let mut run = Run::from_stats(
         "model_checking",
-        "differential enumeration: every configuration of the C04 product at CTAP2 level (operation, rk/up/uv, verification capability, validation outcome, pin-auth) x 4 store contents x {contract store, Arc<Mutex<MemoryStore>>} x PRF extension on/off x descriptor type {public-key, unknown}, store failures of find / save / update with seven status *values* (incl. Ctap1(Success), which shares byte 0x00 with Ctap2(Ok)), a sloppy store that lists every credential of the RP whatever ids are asked for, user handles / user ids of 900 and 4000 bytes (responses beyond 1 KiB / 4 KiB), a slow user (the user step suspends once and the thread's clock - virtual, the harness's own clock_gettime - advances by 11 s, 31 s, an hour, 25 hours while it is pending), and getInfo for every capability combination, plus all pairs (thorough: triples) of operations on ONE authenticator with a capability change in between (verification / presence / store capability), each run once through the inherent method and once through <Authenticator as Ctap2Api> on identically seeded authenticators inside isolated worker processes (8 MiB stack, 30 s watchdog); compared: result (status byte or full response incl. RFC 6979 signature bytes; fresh ids/keys normalised), store snapshot, store/user-validation call log. Non-trivial = distinct case whose direct call reached a verdict",
+        "differential enumeration: every configuration of the C04 product at CTAP2 level (operation, rk/up/uv, verification capability, validation outcome, pin-auth) x 4 store contents x {contract store, Arc<Mutex<MemoryStore>>} x PRF extension on/off x descriptor type {public-key, unknown}, store failures of find / save / update with seven status *values* (incl. Ctap1(Success), which shares byte 0x00 with Ctap2(Ok)), a sloppy store that lists every credential of the RP whatever ids are asked for, user handles / user ids of 900 and 4000 bytes (responses beyond 1 KiB / 4 KiB), repetition histories (one of eight granted / user-denied / dropped ceremonies 8, 9, 17 and 33 times in a row on one authenticator, then each of them as a probe, against fresh authenticators), a slow user (the user step suspends once and the thread's clock - virtual, the harness's own clock_gettime - advances by 11 s, 31 s, an hour, 25 hours while it is pending), and getInfo for every capability combination, plus all pairs (thorough: triples) of operations on ONE authenticator with a capability change in between (verification / presence / store capability), each run once through the inherent method and once through <Authenticator as Ctap2Api> on identically seeded authenticators inside isolated worker processes (8 MiB stack, 30 s watchdog); compared: result (status byte or full response incl. RFC 6979 signature bytes; fresh ids/keys normalised), store snapshot, store/user-validation call log. Non-trivial = distinct case whose direct call reached a verdict",
         true,
         stats,
     );
